@@ -1,8 +1,1552 @@
-//! C15 TLS over an in-memory scripted duplex (both back-ends) — not built yet.
+//! C15 (TLS half) — the TLS layer preserves the stream over any transport
+//! behaviour.
+//!
+//! `compio_tls::{TlsConnector, TlsAcceptor, TlsStream}` are generic over
+//! `futures_io::{AsyncRead, AsyncWrite}` and need no runtime, so a client and a
+//! server run here against an **in-memory duplex** (`End`) whose two ends each
+//! follow a *transfer script*:
+//!
+//! * per-call read limit and per-call write limit (cyclic sequences, 0 =
+//!   unbounded) -> fragmented reads, partial writes;
+//! * `Pending` injections per call kind (read / write / flush / close) from a
+//!   cyclic pattern; an injected `Pending` leaves the kind *blocked* until a
+//!   **deferred wake** matures `delay` executor steps later (a transport that
+//!   is "not ready now, ready later");
+//! * *buffering* mode: written bytes are staged and reach the peer only on
+//!   `poll_flush` / `poll_close` (a `BufWriter`-like transport).
+//!
+//! Both tasks are polled by a tiny deterministic two-task executor that counts
+//! steps (= polls). Verdicts are logical, never by time:
+//!
+//! * **deadlock**: no task is woken, no deferred wake is outstanding, and not
+//!   both tasks are done (sub-classified by where bytes sit: staged/unflushed,
+//!   delivered-but-unread, or nowhere);
+//! * **spin**: steps exceed a bound proportional to the transport work that was
+//!   really done, or a task is polled many times in a row without any progress
+//!   anywhere, or a single poll makes an unbounded number of transport calls;
+//! * **stream**: plaintext read == plaintext written, in order, exactly once
+//!   (position-dependent pattern), for message lists 0 B .. 64 KiB, both
+//!   directions;
+//! * **close**: after `close()` the peer reads a clean EOF (`Ok(0)`), both ways;
+//! * **residue**: at the end nothing is left staged or unread in the duplex.
+//!
+//! Back-ends: native-tls (OpenSSL) and rustls+ring, in all four client/server
+//! combinations; TLS 1.3 and TLS 1.2 (the last flight of the handshake is sent
+//! by a different role).
 
-use vcommon::Args;
+use std::{
+    cell::RefCell,
+    collections::VecDeque,
+    future::Future,
+    io,
+    pin::Pin,
+    rc::Rc,
+    sync::{
+        Arc,
+        atomic::{AtomicBool, Ordering},
+    },
+    task::{Context, Poll, Wake, Waker},
+};
 
-pub fn main(_args: &Args) {
-    eprintln!("c15t: not implemented");
-    std::process::exit(3);
+use compio_tls::{TlsAcceptor, TlsConnector, TlsStream};
+use futures_util::{AsyncRead, AsyncReadExt, AsyncWrite, AsyncWriteExt};
+use vcommon::{Args, Report, Rng, Value, json, panics};
+
+// ---------------------------------------------------------------------------
+// Scripts and cases
+// ---------------------------------------------------------------------------
+
+const READ: usize = 0;
+const WRITE: usize = 1;
+const FLUSH: usize = 2;
+const CLOSE: usize = 3;
+const KIND_NAMES: [&str; 4] = ["read", "write", "flush", "close"];
+
+#[derive(Clone, Debug, PartialEq)]
+pub struct EndScript {
+    /// Cyclic per-call read limits (0 = unbounded). Empty = unbounded.
+    pub rl: Vec<usize>,
+    /// Cyclic per-call write limits (0 = unbounded). Empty = unbounded.
+    pub wl: Vec<usize>,
+    /// Per call kind a cyclic pattern: `true` = this call returns `Pending`
+    /// and the kind stays blocked until the deferred wake matures.
+    pub pend: [Vec<bool>; 4],
+    /// The deferred wake matures this many executor steps after the injection.
+    pub delay: u64,
+    /// Written bytes reach the peer only on flush / close.
+    pub buffering: bool,
+}
+
+impl EndScript {
+    pub fn benign() -> Self {
+        Self {
+            rl: vec![],
+            wl: vec![],
+            pend: Default::default(),
+            delay: 0,
+            buffering: false,
+        }
+    }
+
+    /// The enumerated family: fixed limits, `Pending` then `k` ready calls.
+    pub fn regular(rl: usize, wl: usize, k: usize, buffering: bool, flush_too: bool) -> Self {
+        let pat: Vec<bool> = if k == 0 {
+            vec![]
+        } else {
+            std::iter::once(true)
+                .chain(std::iter::repeat_n(false, k))
+                .collect()
+        };
+        Self {
+            rl: if rl == 0 { vec![] } else { vec![rl] },
+            wl: if wl == 0 { vec![] } else { vec![wl] },
+            pend: if flush_too {
+                [pat.clone(), pat.clone(), pat.clone(), pat]
+            } else {
+                [pat.clone(), pat, vec![], vec![]]
+            },
+            delay: 0,
+            buffering,
+        }
+    }
+
+    fn is_benign(&self) -> bool {
+        *self == Self::benign()
+    }
+
+    fn has_pending(&self) -> bool {
+        self.pend.iter().any(|p| p.iter().any(|b| *b))
+    }
+
+    fn to_json(&self) -> Value {
+        json!({"rl": self.rl, "wl": self.wl,
+               "pend": self.pend.iter().map(|p| p.iter().map(|b| *b as u8).collect::<Vec<_>>()).collect::<Vec<_>>(),
+               "delay": self.delay, "buffering": self.buffering})
+    }
+
+    fn from_json(v: &Value) -> Self {
+        let us = |v: &Value| -> Vec<usize> {
+            v.as_array()
+                .map(|a| a.iter().map(|x| x.as_u64().unwrap_or(0) as usize).collect())
+                .unwrap_or_default()
+        };
+        let mut pend: [Vec<bool>; 4] = Default::default();
+        if let Some(a) = v["pend"].as_array() {
+            for (i, p) in a.iter().enumerate().take(4) {
+                pend[i] = us(p).into_iter().map(|x| x != 0).collect();
+            }
+        }
+        Self {
+            rl: us(&v["rl"]),
+            wl: us(&v["wl"]),
+            pend,
+            delay: v["delay"].as_u64().unwrap_or(0),
+            buffering: v["buffering"].as_bool().unwrap_or(false),
+        }
+    }
+}
+
+#[derive(Clone, Copy, Debug, PartialEq, Eq)]
+pub enum Backend {
+    Native,
+    Rustls,
+}
+
+impl Backend {
+    fn name(self) -> &'static str {
+        match self {
+            Backend::Native => "native",
+            Backend::Rustls => "rustls",
+        }
+    }
+
+    fn parse(s: &str) -> Self {
+        if s == "native" { Backend::Native } else { Backend::Rustls }
+    }
+}
+
+#[derive(Clone, Debug)]
+pub struct Case {
+    /// Human label of the generator family ("enum" / "seeded").
+    family: String,
+    backend: [Backend; 2],
+    /// 13 = TLS 1.3, 12 = TLS 1.2 (both sides capped).
+    version: u8,
+    script: [EndScript; 2],
+    /// Which role carries the hostile script: "client" | "server" | "both".
+    hostile: String,
+    /// Message lists (lengths), client->server then server->client.
+    msgs: [Vec<usize>; 2],
+    /// Flush after each message (else once after the list).
+    flush_each: bool,
+    /// Cyclic read buffer sizes of the receiving application.
+    read_sizes: Vec<usize>,
+    /// 0 = client closes first, 1 = server closes first.
+    closer: usize,
+    /// 0 round robin, 1 prefer client, 2 prefer server, 3 seeded.
+    sched: u8,
+    sched_seed: u64,
+    pattern_seed: u64,
+}
+
+impl Case {
+    fn to_json(&self) -> Value {
+        json!({
+            "family": self.family,
+            "backend": [self.backend[0].name(), self.backend[1].name()],
+            "version": self.version,
+            "script": [self.script[0].to_json(), self.script[1].to_json()],
+            "hostile": self.hostile,
+            "msgs": [self.msgs[0], self.msgs[1]],
+            "flush_each": self.flush_each,
+            "read_sizes": self.read_sizes,
+            "closer": self.closer,
+            "sched": self.sched,
+            "sched_seed": self.sched_seed,
+            "pattern_seed": self.pattern_seed,
+        })
+    }
+
+    fn from_json(v: &Value) -> Self {
+        let us = |v: &Value| -> Vec<usize> {
+            v.as_array()
+                .map(|a| a.iter().map(|x| x.as_u64().unwrap_or(0) as usize).collect())
+                .unwrap_or_default()
+        };
+        Self {
+            family: v["family"].as_str().unwrap_or("replay").to_string(),
+            backend: [
+                Backend::parse(v["backend"][0].as_str().unwrap_or("rustls")),
+                Backend::parse(v["backend"][1].as_str().unwrap_or("rustls")),
+            ],
+            version: v["version"].as_u64().unwrap_or(13) as u8,
+            script: [
+                EndScript::from_json(&v["script"][0]),
+                EndScript::from_json(&v["script"][1]),
+            ],
+            hostile: v["hostile"].as_str().unwrap_or("both").to_string(),
+            msgs: [us(&v["msgs"][0]), us(&v["msgs"][1])],
+            flush_each: v["flush_each"].as_bool().unwrap_or(true),
+            read_sizes: {
+                let r = us(&v["read_sizes"]);
+                if r.is_empty() { vec![4096] } else { r }
+            },
+            closer: v["closer"].as_u64().unwrap_or(0) as usize,
+            sched: v["sched"].as_u64().unwrap_or(0) as u8,
+            sched_seed: v["sched_seed"].as_u64().unwrap_or(0),
+            pattern_seed: v["pattern_seed"].as_u64().unwrap_or(0),
+        }
+    }
+
+    /// The script whose class goes into signatures: the hostile role's.
+    fn hostile_script(&self) -> &EndScript {
+        if self.hostile == "server" { &self.script[1] } else { &self.script[0] }
+    }
+
+    /// Class of the transport scripts of the whole case (union of both ends).
+    fn script_class(&self) -> String {
+        let lim = |f: fn(&EndScript) -> bool| self.script.iter().any(f);
+        let r = lim(|s| s.rl.iter().any(|x| *x != 0));
+        let w = lim(|s| s.wl.iter().any(|x| *x != 0));
+        format!(
+            "{}+{}+{}",
+            match (r, w) {
+                (false, false) => "nolimit",
+                (true, false) => "rlimit",
+                (false, true) => "wlimit",
+                (true, true) => "rwlimit",
+            },
+            if self.script.iter().any(|s| s.has_pending()) { "pending" } else { "nopending" },
+            if self.script.iter().any(|s| s.buffering) { "buffering" } else { "direct" }
+        )
+    }
+
+    fn backends(&self) -> String {
+        format!("{}-client+{}-server", self.backend[0].name(), self.backend[1].name())
+    }
+}
+
+// ---------------------------------------------------------------------------
+// The in-memory duplex
+// ---------------------------------------------------------------------------
+
+#[derive(Default)]
+struct Pipe {
+    /// Written but held back until flush (buffering mode only).
+    staged: Vec<u8>,
+    /// Delivered, readable by the peer.
+    wire: VecDeque<u8>,
+    closed: bool,
+    reader: Option<Waker>,
+    /// Total bytes that reached the wire / were consumed from it.
+    delivered: u64,
+    consumed: u64,
+}
+
+impl Pipe {
+    fn deliver(&mut self, data: &[u8]) {
+        self.wire.extend(data.iter().copied());
+        self.delivered += data.len() as u64;
+        if let Some(w) = self.reader.take() {
+            w.wake();
+        }
+    }
+
+    fn flush_staged(&mut self) -> usize {
+        let n = self.staged.len();
+        if n > 0 {
+            let s = std::mem::take(&mut self.staged);
+            self.deliver(&s);
+        }
+        n
+    }
+}
+
+#[derive(Default, Clone, Debug)]
+struct EndStats {
+    calls: [u64; 4],
+    injected: [u64; 4],
+    genuine_pending: u64,
+    partial_writes: u64,
+    short_reads: u64,
+    flushes_with_data: u64,
+    closes: u64,
+    /// Progress-making calls (moved bytes, delivered staged bytes, closed).
+    useful: u64,
+    /// The last flush/close call returned `Pending` and no flush/close call
+    /// was made since.
+    flush_pending_outstanding: bool,
+    /// Number of flush/close calls after the last staged write.
+    flush_calls_since_write: u64,
+}
+
+struct EndState {
+    script: EndScript,
+    idx: [usize; 4],
+    rl_i: usize,
+    wl_i: usize,
+    blocked: [bool; 4],
+    blocked_waker: [Option<Waker>; 4],
+    stats: EndStats,
+}
+
+struct Deferred {
+    fire_at: u64,
+    end: usize,
+    kind: usize,
+}
+
+struct Net {
+    /// pipes[0]: client -> server, pipes[1]: server -> client.
+    pipes: [Pipe; 2],
+    ends: [EndState; 2],
+    deferred: Vec<Deferred>,
+    step: u64,
+    /// Monotone counter of anything that counts as progress.
+    progress: u64,
+    /// Transport calls without progress inside the current poll.
+    idle_calls_in_poll: u64,
+}
+
+const INPOLL_MARK: &str = "C15T-INPOLL-SPIN";
+const INPOLL_LIMIT: u64 = 200_000;
+
+impl Net {
+    fn new(scripts: [EndScript; 2]) -> Self {
+        let mk = |s: EndScript| EndState {
+            script: s,
+            idx: [0; 4],
+            rl_i: 0,
+            wl_i: 0,
+            blocked: [false; 4],
+            blocked_waker: Default::default(),
+            stats: EndStats::default(),
+        };
+        let [a, b] = scripts;
+        Self {
+            pipes: Default::default(),
+            ends: [mk(a), mk(b)],
+            deferred: Vec::new(),
+            step: 0,
+            progress: 0,
+            idle_calls_in_poll: 0,
+        }
+    }
+
+    fn idle_call(&mut self) {
+        self.idle_calls_in_poll += 1;
+        if self.idle_calls_in_poll > INPOLL_LIMIT {
+            panic!("{INPOLL_MARK}: more than {INPOLL_LIMIT} transport calls without progress inside one poll");
+        }
+    }
+
+    fn useful(&mut self, me: usize) {
+        self.progress += 1;
+        self.idle_calls_in_poll = 0;
+        self.ends[me].stats.useful += 1;
+    }
+
+    /// Returns true if this call must return `Pending` (script injection).
+    fn inject(&mut self, me: usize, kind: usize, cx: &mut Context<'_>) -> bool {
+        let step = self.step;
+        let e = &mut self.ends[me];
+        e.stats.calls[kind] += 1;
+        if e.blocked[kind] {
+            // Still not ready: keep the most recent waker (poll contract).
+            e.blocked_waker[kind] = Some(cx.waker().clone());
+            self.idle_call();
+            return true;
+        }
+        let pat = &e.script.pend[kind];
+        if pat.is_empty() {
+            return false;
+        }
+        let p = pat[e.idx[kind] % pat.len()];
+        e.idx[kind] += 1;
+        if p {
+            e.blocked[kind] = true;
+            e.blocked_waker[kind] = Some(cx.waker().clone());
+            e.stats.injected[kind] += 1;
+            let delay = e.script.delay;
+            self.deferred.push(Deferred {
+                fire_at: step + delay,
+                end: me,
+                kind,
+            });
+            // an injected Pending is transport behaviour, i.e. "work" the
+            // layer legitimately has to wait for
+            self.progress += 1;
+            self.idle_calls_in_poll = 0;
+            return true;
+        }
+        false
+    }
+
+    /// Fire the deferred wakes that are due (all of them if `force`).
+    fn fire_due(&mut self, force_one: bool) -> bool {
+        let mut fired = false;
+        let step = self.step;
+        let mut i = 0;
+        // when forcing, fire the earliest one only
+        let earliest = self.deferred.iter().map(|d| d.fire_at).min();
+        while i < self.deferred.len() {
+            let due = self.deferred[i].fire_at <= step
+                || (force_one && !fired && Some(self.deferred[i].fire_at) == earliest);
+            if due {
+                let d = self.deferred.remove(i);
+                let e = &mut self.ends[d.end];
+                e.blocked[d.kind] = false;
+                if let Some(w) = e.blocked_waker[d.kind].take() {
+                    w.wake();
+                }
+                fired = true;
+            } else {
+                i += 1;
+            }
+        }
+        fired
+    }
+}
+
+pub struct End {
+    net: Rc<RefCell<Net>>,
+    me: usize,
+}
+
+impl AsyncRead for End {
+    fn poll_read(
+        self: Pin<&mut Self>,
+        cx: &mut Context<'_>,
+        buf: &mut [u8],
+    ) -> Poll<io::Result<usize>> {
+        let me = self.me;
+        let net = &mut *self.net.borrow_mut();
+        if buf.is_empty() {
+            net.idle_call();
+            return Poll::Ready(Ok(0));
+        }
+        if net.inject(me, READ, cx) {
+            return Poll::Pending;
+        }
+        let lim = {
+            let e = &mut net.ends[me];
+            let l = if e.script.rl.is_empty() {
+                0
+            } else {
+                let l = e.script.rl[e.rl_i % e.script.rl.len()];
+                e.rl_i += 1;
+                l
+            };
+            if l == 0 { usize::MAX } else { l }
+        };
+        let rx = &mut net.pipes[1 - me];
+        if rx.wire.is_empty() {
+            if rx.closed {
+                net.useful(me);
+                return Poll::Ready(Ok(0));
+            }
+            rx.reader = Some(cx.waker().clone());
+            net.ends[me].stats.genuine_pending += 1;
+            net.idle_call();
+            return Poll::Pending;
+        }
+        let avail = rx.wire.len();
+        let n = buf.len().min(avail).min(lim);
+        for b in buf.iter_mut().take(n) {
+            *b = rx.wire.pop_front().expect("wire has n bytes");
+        }
+        rx.consumed += n as u64;
+        if n < buf.len().min(avail) {
+            net.ends[me].stats.short_reads += 1;
+        }
+        net.useful(me);
+        Poll::Ready(Ok(n))
+    }
+}
+
+impl AsyncWrite for End {
+    fn poll_write(
+        self: Pin<&mut Self>,
+        cx: &mut Context<'_>,
+        buf: &[u8],
+    ) -> Poll<io::Result<usize>> {
+        let me = self.me;
+        let net = &mut *self.net.borrow_mut();
+        if buf.is_empty() {
+            net.idle_call();
+            return Poll::Ready(Ok(0));
+        }
+        if net.inject(me, WRITE, cx) {
+            return Poll::Pending;
+        }
+        if net.pipes[me].closed {
+            net.idle_call();
+            return Poll::Ready(Err(io::Error::new(
+                io::ErrorKind::BrokenPipe,
+                "write after close on the scripted duplex",
+            )));
+        }
+        let e = &mut net.ends[me];
+        let lim = if e.script.wl.is_empty() {
+            0
+        } else {
+            let l = e.script.wl[e.wl_i % e.script.wl.len()];
+            e.wl_i += 1;
+            l
+        };
+        let n = if lim == 0 { buf.len() } else { buf.len().min(lim) };
+        if n < buf.len() {
+            e.stats.partial_writes += 1;
+        }
+        let buffering = e.script.buffering;
+        let tx = &mut net.pipes[me];
+        if buffering {
+            tx.staged.extend_from_slice(&buf[..n]);
+            e.stats.flush_calls_since_write = 0;
+        } else {
+            tx.deliver(&buf[..n]);
+        }
+        net.useful(me);
+        Poll::Ready(Ok(n))
+    }
+
+    fn poll_flush(self: Pin<&mut Self>, cx: &mut Context<'_>) -> Poll<io::Result<()>> {
+        let me = self.me;
+        let net = &mut *self.net.borrow_mut();
+        net.ends[me].stats.flush_calls_since_write += 1;
+        if net.inject(me, FLUSH, cx) {
+            net.ends[me].stats.flush_pending_outstanding = true;
+            return Poll::Pending;
+        }
+        net.ends[me].stats.flush_pending_outstanding = false;
+        if net.pipes[me].flush_staged() > 0 {
+            net.ends[me].stats.flushes_with_data += 1;
+            net.useful(me);
+        } else {
+            net.idle_call();
+        }
+        Poll::Ready(Ok(()))
+    }
+
+    fn poll_close(self: Pin<&mut Self>, cx: &mut Context<'_>) -> Poll<io::Result<()>> {
+        let me = self.me;
+        let net = &mut *self.net.borrow_mut();
+        net.ends[me].stats.flush_calls_since_write += 1;
+        if net.inject(me, CLOSE, cx) {
+            net.ends[me].stats.flush_pending_outstanding = true;
+            return Poll::Pending;
+        }
+        net.ends[me].stats.flush_pending_outstanding = false;
+        let tx = &mut net.pipes[me];
+        tx.flush_staged();
+        if !tx.closed {
+            tx.closed = true;
+            if let Some(w) = tx.reader.take() {
+                w.wake();
+            }
+            net.ends[me].stats.closes += 1;
+            net.useful(me);
+        } else {
+            net.idle_call();
+        }
+        Poll::Ready(Ok(()))
+    }
+}
+
+// ---------------------------------------------------------------------------
+// TLS material (once per process)
+// ---------------------------------------------------------------------------
+
+/// Acceptors / connectors for the process-wide self-signed certificate;
+/// index 0 = default protocol versions (TLS 1.3), 1 = capped at TLS 1.2.
+/// Shared with the WebSocket module (`c15w`).
+pub(crate) struct Material {
+    pub(crate) native_acc: [TlsAcceptor; 2],
+    pub(crate) native_con: [TlsConnector; 2],
+    pub(crate) rustls_acc: [TlsAcceptor; 2],
+    pub(crate) rustls_con: [TlsConnector; 2],
+}
+
+thread_local! {
+    static MATERIAL: RefCell<Option<Rc<Material>>> = const { RefCell::new(None) };
+}
+
+fn build_material() -> Result<Material, String> {
+    let rcgen::CertifiedKey { cert, signing_key } =
+        rcgen::generate_simple_self_signed(vec!["localhost".to_string()])
+            .map_err(|e| format!("rcgen: {e}"))?;
+    let cert_pem = cert.pem();
+    let key_pem = signing_key.serialize_pem();
+    let cert_der = cert.der().clone();
+    let key_der = signing_key.serialize_der();
+
+    // [0] = TLS 1.3 allowed (default), [1] = capped at TLS 1.2
+    let native = |cap12: bool| -> Result<(TlsAcceptor, TlsConnector), String> {
+        let id = native_tls::Identity::from_pkcs8(cert_pem.as_bytes(), key_pem.as_bytes())
+            .map_err(|e| format!("native identity: {e}"))?;
+        let mut ab = native_tls::TlsAcceptor::builder(id);
+        let mut cb = native_tls::TlsConnector::builder();
+        cb.add_root_certificate(
+            native_tls::Certificate::from_pem(cert_pem.as_bytes())
+                .map_err(|e| format!("native cert: {e}"))?,
+        );
+        if cap12 {
+            ab.max_protocol_version(Some(native_tls::Protocol::Tlsv12));
+            cb.max_protocol_version(Some(native_tls::Protocol::Tlsv12));
+        }
+        Ok((
+            TlsAcceptor::from(ab.build().map_err(|e| format!("native acceptor: {e}"))?),
+            TlsConnector::from(cb.build().map_err(|e| format!("native connector: {e}"))?),
+        ))
+    };
+    let rtls = |cap12: bool| -> Result<(TlsAcceptor, TlsConnector), String> {
+        let provider = Arc::new(rustls::crypto::ring::default_provider());
+        let versions: &[&rustls::SupportedProtocolVersion] = if cap12 {
+            &[&rustls::version::TLS12]
+        } else {
+            rustls::ALL_VERSIONS
+        };
+        let key = rustls::pki_types::PrivateKeyDer::Pkcs8(
+            rustls::pki_types::PrivatePkcs8KeyDer::from(key_der.clone()),
+        );
+        let sc = rustls::ServerConfig::builder_with_provider(provider.clone())
+            .with_protocol_versions(versions)
+            .map_err(|e| format!("rustls versions: {e}"))?
+            .with_no_client_auth()
+            .with_single_cert(vec![cert_der.clone()], key)
+            .map_err(|e| format!("rustls server cert: {e}"))?;
+        let mut store = rustls::RootCertStore::empty();
+        store
+            .add(cert_der.clone())
+            .map_err(|e| format!("rustls root: {e}"))?;
+        let cc = rustls::ClientConfig::builder_with_provider(provider)
+            .with_protocol_versions(versions)
+            .map_err(|e| format!("rustls versions: {e}"))?
+            .with_root_certificates(store)
+            .with_no_client_auth();
+        Ok((TlsAcceptor::from(Arc::new(sc)), TlsConnector::from(Arc::new(cc))))
+    };
+    let (na0, nc0) = native(false)?;
+    let (na1, nc1) = native(true)?;
+    let (ra0, rc0) = rtls(false)?;
+    let (ra1, rc1) = rtls(true)?;
+    Ok(Material {
+        native_acc: [na0, na1],
+        native_con: [nc0, nc1],
+        rustls_acc: [ra0, ra1],
+        rustls_con: [rc0, rc1],
+    })
+}
+
+pub(crate) fn material() -> Result<Rc<Material>, String> {
+    MATERIAL.with(|m| {
+        if let Some(m) = m.borrow().as_ref() {
+            return Ok(m.clone());
+        }
+        let built = Rc::new(build_material()?);
+        *m.borrow_mut() = Some(built.clone());
+        Ok(built)
+    })
+}
+
+// ---------------------------------------------------------------------------
+// The two application tasks
+// ---------------------------------------------------------------------------
+
+#[derive(Clone, Copy, Debug, PartialEq, Eq)]
+enum Phase {
+    Handshake,
+    Send,
+    Recv,
+    Close,
+    WaitEof,
+    Done,
+}
+
+impl Phase {
+    fn name(self) -> &'static str {
+        match self {
+            Phase::Handshake => "handshake",
+            Phase::Send => "send",
+            Phase::Recv => "recv",
+            Phase::Close => "close",
+            Phase::WaitEof => "wait-eof",
+            Phase::Done => "done",
+        }
+    }
+}
+
+#[derive(Debug)]
+struct SideLog {
+    phase: Phase,
+    /// (rule, detail)
+    failure: Option<(String, String)>,
+    handshake_done_at: Option<u64>,
+    written: u64,
+    read: u64,
+    /// Application-level progress events (phase changes, bytes).
+    events: u64,
+}
+
+type Shared = Rc<RefCell<SideLog>>;
+
+fn pattern_byte(seed: u64, dir: usize, i: u64) -> u8 {
+    let mut x = i
+        .wrapping_add(seed)
+        .wrapping_mul(0x9E37_79B9_7F4A_7C15)
+        .wrapping_add(dir as u64 * 0x5851_F42D_4C95_7F2D);
+    x ^= x >> 29;
+    x = x.wrapping_mul(0xBF58_476D_1CE4_E5B9);
+    (x >> 32) as u8
+}
+
+fn set_phase(log: &Shared, net: &Rc<RefCell<Net>>, p: Phase) {
+    let mut l = log.borrow_mut();
+    l.phase = p;
+    l.events += 1;
+    net.borrow_mut().progress += 1;
+}
+
+fn fail(log: &Shared, rule: &str, detail: String) {
+    let mut l = log.borrow_mut();
+    if l.failure.is_none() {
+        l.failure = Some((rule.to_string(), detail));
+    }
+}
+
+async fn send_list(
+    s: &mut TlsStream<End>,
+    case: &Case,
+    dir: usize,
+    log: &Shared,
+    net: &Rc<RefCell<Net>>,
+) -> Result<(), ()> {
+    let mut off = 0u64;
+    for len in case.msgs[dir].iter().copied() {
+        let data: Vec<u8> = (0..len as u64)
+            .map(|i| pattern_byte(case.pattern_seed, dir, off + i))
+            .collect();
+        if len == 0 {
+            // a zero-length application write: must be harmless
+            let r = std::future::poll_fn(|cx| Pin::new(&mut *s).poll_write(cx, &[])).await;
+            match r {
+                Ok(0) => {}
+                Ok(n) => {
+                    fail(log, "zero-write-count", format!("write(&[]) returned Ok({n})"));
+                    return Err(());
+                }
+                Err(e) => {
+                    fail(log, "zero-write-error", format!("write(&[]) failed: {e}"));
+                    return Err(());
+                }
+            }
+        } else if let Err(e) = s.write_all(&data).await {
+            fail(log, "write-error", format!("write_all of {len} bytes at offset {off} failed: {e}"));
+            return Err(());
+        }
+        off += len as u64;
+        {
+            let mut l = log.borrow_mut();
+            l.written = off;
+            l.events += 1;
+        }
+        net.borrow_mut().progress += 1;
+        if case.flush_each
+            && let Err(e) = s.flush().await
+        {
+            fail(log, "flush-error", format!("flush after offset {off} failed: {e}"));
+            return Err(());
+        }
+    }
+    if let Err(e) = s.flush().await {
+        fail(log, "flush-error", format!("final flush failed: {e}"));
+        return Err(());
+    }
+    Ok(())
+}
+
+async fn recv_list(
+    s: &mut TlsStream<End>,
+    case: &Case,
+    dir: usize,
+    role: usize,
+    log: &Shared,
+    net: &Rc<RefCell<Net>>,
+) -> Result<(), ()> {
+    let total: u64 = case.msgs[dir].iter().map(|x| *x as u64).sum();
+    let mut got = 0u64;
+    let mut i = role * 3; // the two roles walk the size list out of phase
+    let mut buf = vec![0u8; case.read_sizes.iter().copied().max().unwrap_or(1).max(1)];
+    while got < total {
+        let sz = case.read_sizes[i % case.read_sizes.len()].max(1);
+        i += 1;
+        // never ask for more than what is still expected, so that data of the
+        // next phase cannot be swallowed here
+        let want = (sz as u64).min(total - got) as usize;
+        let n = match s.read(&mut buf[..want]).await {
+            Ok(n) => n,
+            Err(e) => {
+                fail(log, "read-error", format!("read at offset {got}/{total} failed: {e}"));
+                return Err(());
+            }
+        };
+        if n == 0 {
+            fail(log, "early-eof", format!("EOF at offset {got} of {total}"));
+            return Err(());
+        }
+        if n > want {
+            fail(log, "read-overrun", format!("read returned {n} for a {want}-byte buffer"));
+            return Err(());
+        }
+        for (k, b) in buf[..n].iter().enumerate() {
+            let exp = pattern_byte(case.pattern_seed, dir, got + k as u64);
+            if *b != exp {
+                fail(
+                    log,
+                    "data-mismatch",
+                    format!("byte {} of the stream is {b:#04x}, expected {exp:#04x} (read of {n} at offset {got})", got + k as u64),
+                );
+                return Err(());
+            }
+        }
+        got += n as u64;
+        {
+            let mut l = log.borrow_mut();
+            l.read = got;
+            l.events += 1;
+        }
+        net.borrow_mut().progress += 1;
+    }
+    Ok(())
+}
+
+async fn expect_eof(s: &mut TlsStream<End>, log: &Shared) -> Result<(), ()> {
+    let mut b = [0u8; 16];
+    match s.read(&mut b).await {
+        Ok(0) => Ok(()),
+        Ok(n) => {
+            fail(log, "extra-data", format!("{n} unexpected plaintext bytes where EOF was due (duplicate or invented data)"));
+            Err(())
+        }
+        Err(e) => {
+            fail(log, "eof-not-clean", format!("read after the peer's close failed instead of returning EOF: {e} ({:?})", e.kind()));
+            Err(())
+        }
+    }
+}
+
+async fn side(role: usize, end: End, case: Rc<Case>, log: Shared, net: Rc<RefCell<Net>>) {
+    let m = match material() {
+        Ok(m) => m,
+        Err(e) => {
+            fail(&log, "harness", e);
+            return;
+        }
+    };
+    let v = if case.version == 12 { 1 } else { 0 };
+    let hs = if role == 0 {
+        let c = match case.backend[0] {
+            Backend::Native => m.native_con[v].clone(),
+            Backend::Rustls => m.rustls_con[v].clone(),
+        };
+        c.connect("localhost", end).await
+    } else {
+        let a = match case.backend[1] {
+            Backend::Native => m.native_acc[v].clone(),
+            Backend::Rustls => m.rustls_acc[v].clone(),
+        };
+        a.accept(end).await
+    };
+    let mut s = match hs {
+        Ok(s) => s,
+        Err(e) => {
+            fail(&log, "handshake-error", format!("{e}"));
+            return;
+        }
+    };
+    log.borrow_mut().handshake_done_at = Some(net.borrow().step);
+    // phase A: client -> server; phase B: server -> client
+    for dir in 0..2 {
+        if role == dir {
+            set_phase(&log, &net, Phase::Send);
+            if send_list(&mut s, &case, dir, &log, &net).await.is_err() {
+                return;
+            }
+        } else {
+            set_phase(&log, &net, Phase::Recv);
+            if recv_list(&mut s, &case, dir, role, &log, &net).await.is_err() {
+                return;
+            }
+        }
+    }
+    if role == case.closer {
+        set_phase(&log, &net, Phase::Close);
+        if let Err(e) = s.close().await {
+            fail(&log, "close-error", format!("close failed: {e}"));
+            return;
+        }
+        set_phase(&log, &net, Phase::WaitEof);
+        if expect_eof(&mut s, &log).await.is_err() {
+            return;
+        }
+    } else {
+        set_phase(&log, &net, Phase::WaitEof);
+        if expect_eof(&mut s, &log).await.is_err() {
+            return;
+        }
+        set_phase(&log, &net, Phase::Close);
+        if let Err(e) = s.close().await {
+            fail(&log, "close-error", format!("close after the peer's close failed: {e}"));
+            return;
+        }
+    }
+    set_phase(&log, &net, Phase::Done);
+    drop(s);
+}
+
+// ---------------------------------------------------------------------------
+// The deterministic two-task executor
+// ---------------------------------------------------------------------------
+
+struct TaskWaker {
+    woken: AtomicBool,
+}
+
+impl Wake for TaskWaker {
+    fn wake(self: Arc<Self>) {
+        self.woken.store(true, Ordering::SeqCst);
+    }
+
+    fn wake_by_ref(self: &Arc<Self>) {
+        self.woken.store(true, Ordering::SeqCst);
+    }
+}
+
+#[derive(Debug, Clone)]
+pub struct Failure {
+    rule: String,
+    /// Diagnosed cause (deadlocks) or empty.
+    cause: String,
+    /// The side the failure is attributed to: 0 client, 1 server.
+    side: usize,
+    detail: String,
+}
+
+#[derive(Debug)]
+pub struct Outcome {
+    /// None = held.
+    failure: Option<Failure>,
+    steps: u64,
+    hs_steps: [Option<u64>; 2],
+    stats: [EndStats; 2],
+    delivered: [u64; 2],
+    phases: [Phase; 2],
+}
+
+const STREAK_LIMIT: u64 = 2_000;
+
+fn run_case(case: &Case) -> Outcome {
+    let case = Rc::new(case.clone());
+    let net = Rc::new(RefCell::new(Net::new(case.script.clone())));
+    let logs: [Shared; 2] = std::array::from_fn(|_| {
+        Rc::new(RefCell::new(SideLog {
+            phase: Phase::Handshake,
+            failure: None,
+            handshake_done_at: None,
+            written: 0,
+            read: 0,
+            events: 0,
+        }))
+    });
+    let mut tasks: [Option<Pin<Box<dyn Future<Output = ()>>>>; 2] = std::array::from_fn(|r| {
+        let end = End {
+            net: net.clone(),
+            me: r,
+        };
+        Some(Box::pin(side(r, end, case.clone(), logs[r].clone(), net.clone())) as Pin<Box<dyn Future<Output = ()>>>)
+    });
+    let wakers: [Arc<TaskWaker>; 2] = std::array::from_fn(|_| {
+        Arc::new(TaskWaker {
+            woken: AtomicBool::new(true),
+        })
+    });
+    let mut rng = Rng::new(case.sched_seed ^ 0x5eed);
+    let mut last = 1usize;
+    let mut streak = [0u64; 2];
+    let mut failure: Option<Failure> = None;
+    // generous hard cap; the proportional bound is checked at the end
+    let total_bytes: u64 = case.msgs.iter().flatten().map(|x| *x as u64).sum();
+    let hard_cap: u64 = 2_000_000 + 200 * total_bytes;
+
+    loop {
+        if tasks.iter().all(|t| t.is_none()) {
+            break;
+        }
+        net.borrow_mut().fire_due(false);
+        let runnable: Vec<usize> = (0..2)
+            .filter(|i| tasks[*i].is_some() && wakers[*i].woken.load(Ordering::SeqCst))
+            .collect();
+        if runnable.is_empty() {
+            if net.borrow_mut().fire_due(true) {
+                continue;
+            }
+            // logical deadlock: nobody is woken, nothing will ever wake anybody
+            let n = net.borrow();
+            let staged = [n.pipes[0].staged.len(), n.pipes[1].staged.len()];
+            let wire = [n.pipes[0].wire.len(), n.pipes[1].wire.len()];
+            // attribute: the side whose written bytes are stuck in its own
+            // transport buffer; else the side that does not read what was
+            // delivered to it; else the first side still pending
+            let (kind, side, cause) = if let Some(i) = (0..2).find(|i| staged[*i] > 0) {
+                let st = &n.ends[i].stats;
+                let cause = if st.flush_pending_outstanding {
+                    "flush-pending-never-retried"
+                } else if st.flush_calls_since_write == 0 {
+                    "no-flush-after-write"
+                } else {
+                    "flushed-but-staged"
+                };
+                ("deadlock-unflushed", i, cause)
+            } else if let Some(i) = (0..2).find(|i| wire[*i] > 0) {
+                ("deadlock-unread", 1 - i, if n.pipes[i].reader.is_some() { "reader-waker-not-woken" } else { "reader-not-waiting" })
+            } else {
+                ("deadlock-silent", (0..2).find(|i| tasks[*i].is_some()).unwrap_or(0), "nothing-in-transit")
+            };
+            let pending_sides: Vec<&str> = (0..2)
+                .filter(|i| tasks[*i].is_some())
+                .map(|i| ["client", "server"][i])
+                .collect();
+            failure = Some(Failure {
+                rule: kind.to_string(),
+                cause: cause.to_string(),
+                side,
+                detail: format!(
+                    "no task is woken and no wake is outstanding at step {}; still pending: {pending_sides:?} (client in {}, server in {}); staged (unflushed) bytes c->s {} s->c {}; delivered-but-unread c->s {} s->c {}; reader wakers registered: c->s {} s->c {}; flush calls since last staged write: client {} server {}; last flush returned Pending and was never retried: client {} server {}",
+                    n.step,
+                    logs[0].borrow().phase.name(),
+                    logs[1].borrow().phase.name(),
+                    staged[0], staged[1], wire[0], wire[1],
+                    n.pipes[0].reader.is_some(), n.pipes[1].reader.is_some(),
+                    n.ends[0].stats.flush_calls_since_write, n.ends[1].stats.flush_calls_since_write,
+                    n.ends[0].stats.flush_pending_outstanding, n.ends[1].stats.flush_pending_outstanding,
+                ),
+            });
+            break;
+        }
+        let pick = match case.sched {
+            1 => runnable[0],
+            2 => *runnable.last().expect("non-empty"),
+            3 => runnable[rng.below(runnable.len())],
+            _ => {
+                if runnable.len() == 2 { 1 - last } else { runnable[0] }
+            }
+        };
+        last = pick;
+        wakers[pick].woken.store(false, Ordering::SeqCst);
+        let before = {
+            let mut n = net.borrow_mut();
+            n.idle_calls_in_poll = 0;
+            n.progress
+        };
+        let w = Waker::from(wakers[pick].clone());
+        let mut cx = Context::from_waker(&w);
+        let r = tasks[pick].as_mut().expect("runnable task").as_mut().poll(&mut cx);
+        let after = {
+            let mut n = net.borrow_mut();
+            n.step += 1;
+            n.progress
+        };
+        if r.is_ready() {
+            tasks[pick] = None;
+            if let Some((rule, detail)) = logs[pick].borrow().failure.clone() {
+                failure = Some(Failure { rule, cause: String::new(), side: pick, detail });
+                break;
+            }
+        }
+        if after == before {
+            streak[pick] += 1;
+            if streak[pick] > STREAK_LIMIT {
+                failure = Some(Failure {
+                    rule: "spin".to_string(),
+                    cause: String::new(),
+                    side: pick,
+                    detail: format!(
+                        "{} was polled {STREAK_LIMIT} times in a row without any progress anywhere (phase {})",
+                        ["client", "server"][pick],
+                        logs[pick].borrow().phase.name()
+                    ),
+                });
+                break;
+            }
+        } else {
+            streak = [0, 0];
+        }
+        if net.borrow().step > hard_cap {
+            failure = Some(Failure { rule: "steps-exceeded".to_string(), cause: String::new(), side: pick, detail: format!("more than {hard_cap} executor steps") });
+            break;
+        }
+    }
+    // a failure recorded by a task that is still pending (cannot happen: tasks
+    // return after recording) or by the finished one
+    if failure.is_none() {
+        for (i, l) in logs.iter().enumerate() {
+            if let Some((rule, detail)) = l.borrow().failure.clone() {
+                failure = Some(Failure { rule, cause: String::new(), side: i, detail });
+                break;
+            }
+        }
+    }
+    let n = net.borrow();
+    let steps = n.step;
+    if failure.is_none() {
+        // proportional step bound: every poll must be explained by transport
+        // work: a progress-making call, an injected Pending, a genuine Pending
+        // (waiting for the peer) or an application event
+        let work: u64 = n
+            .ends
+            .iter()
+            .map(|e| e.stats.useful + e.stats.injected.iter().sum::<u64>() + e.stats.genuine_pending)
+            .sum::<u64>()
+            + logs.iter().map(|l| l.borrow().events).sum::<u64>();
+        let bound = 64 + 4 * work;
+        if steps > bound {
+            failure = Some(Failure {
+                rule: "steps-disproportionate".to_string(),
+                cause: String::new(),
+                side: 0,
+                detail: format!("{steps} polls for {work} units of transport work (bound {bound})"),
+            });
+        }
+    }
+    if failure.is_none() {
+        // residue: nothing may be left staged or unread
+        let staged = [n.pipes[0].staged.len(), n.pipes[1].staged.len()];
+        let wire = [n.pipes[0].wire.len(), n.pipes[1].wire.len()];
+        if staged.iter().any(|x| *x > 0) {
+            failure = Some(Failure {
+                rule: "residue-staged".to_string(),
+                cause: String::new(),
+                side: if staged[0] > 0 { 0 } else { 1 },
+                detail: format!("both sides finished but unflushed bytes remain in the transport: c->s {} s->c {}", staged[0], staged[1]),
+            });
+        } else if wire.iter().any(|x| *x > 0) {
+            failure = Some(Failure {
+                rule: "residue-unread".to_string(),
+                cause: String::new(),
+                side: if wire[0] > 0 { 1 } else { 0 },
+                detail: format!("both sides finished (EOF seen) but delivered bytes were never read: c->s {} s->c {}", wire[0], wire[1]),
+            });
+        }
+    }
+    Outcome {
+        failure,
+        steps,
+        hs_steps: [logs[0].borrow().handshake_done_at, logs[1].borrow().handshake_done_at],
+        stats: [n.ends[0].stats.clone(), n.ends[1].stats.clone()],
+        delivered: [n.pipes[0].delivered, n.pipes[1].delivered],
+        phases: [logs[0].borrow().phase, logs[1].borrow().phase],
+    }
+}
+
+// ---------------------------------------------------------------------------
+// Case generation
+// ---------------------------------------------------------------------------
+
+const LIMITS: [usize; 5] = [1, 2, 3, 5, 0];
+const PAIRS: [(Backend, Backend); 4] = [
+    (Backend::Native, Backend::Native),
+    (Backend::Rustls, Backend::Rustls),
+    (Backend::Native, Backend::Rustls),
+    (Backend::Rustls, Backend::Native),
+];
+
+/// The enumerated family: limits^2 x buffering x pending k x hostile role x
+/// back-end pair x TLS version.
+fn enumerated(thorough: bool) -> Vec<Case> {
+    let mut out = Vec::new();
+    let mut n = 0u64;
+    for (bc, bs) in PAIRS {
+        for version in [13u8, 12] {
+            for hostile in ["client", "server", "both"] {
+                for rl in LIMITS {
+                    for wl in LIMITS {
+                        for buffering in [false, true] {
+                            // k = 0: never Pending; else Pending-then-k-ready on
+                            // read+write only (kf < 4) or on all four call kinds
+                            for kf in 0..9usize {
+                                let (k, flush_too) = if kf == 0 { (0, false) } else { ((kf - 1) % 4 + 1, kf > 4) };
+                                let s = EndScript::regular(rl, wl, k, buffering, flush_too);
+                                if s.is_benign() && hostile != "both" {
+                                    continue;
+                                }
+                                let script = match hostile {
+                                    "client" => [s, EndScript::benign()],
+                                    "server" => [EndScript::benign(), s],
+                                    _ => [s.clone(), s],
+                                };
+                                n += 1;
+                                // message lists cross the 16 KiB record size in one direction
+                                let msgs = if thorough {
+                                    match n % 3 {
+                                        0 => [vec![0, 1, 16384, 700], vec![3, 0, 16385]],
+                                        1 => [vec![65536], vec![1, 1, 1, 0, 40000]],
+                                        _ => [vec![], vec![17, 32768, 2]],
+                                    }
+                                } else {
+                                    match n % 3 {
+                                        0 => [vec![0, 1, 700], vec![3, 0, 16500]],
+                                        1 => [vec![16385, 2], vec![1, 1, 0, 300]],
+                                        _ => [vec![], vec![17, 2000]],
+                                    }
+                                };
+                                out.push(Case {
+                                    family: "enum".into(),
+                                    backend: [bc, bs],
+                                    version,
+                                    script,
+                                    hostile: hostile.into(),
+                                    msgs,
+                                    flush_each: n % 2 == 0,
+                                    read_sizes: match n % 4 {
+                                        0 => vec![1, 7, 4096],
+                                        1 => vec![16384],
+                                        2 => vec![100_000],
+                                        _ => vec![3, 1, 20000, 5],
+                                    },
+                                    closer: (n % 2) as usize,
+                                    sched: 0,
+                                    sched_seed: 0,
+                                    pattern_seed: n,
+                                });
+                            }
+                        }
+                    }
+                }
+            }
+        }
+    }
+    out
+}
+
+fn seeded_script(rng: &mut Rng) -> EndScript {
+    if rng.chance(1, 8) {
+        return EndScript::benign();
+    }
+    let lim_seq = |rng: &mut Rng| -> Vec<usize> {
+        match rng.below(5) {
+            0 => vec![],
+            1 => vec![*rng.pick(&[1usize, 2, 3, 5, 7, 16, 100, 1000, 16384])],
+            _ => (0..rng.range(2, 6))
+                .map(|_| *rng.pick(&[0usize, 1, 1, 2, 3, 5, 8, 13, 64, 500, 4096, 16384, 20000]))
+                .collect(),
+        }
+    };
+    let pat = |rng: &mut Rng| -> Vec<bool> {
+        match rng.below(4) {
+            0 => vec![],
+            1 => {
+                let k = rng.range(1, 4);
+                std::iter::once(true).chain(std::iter::repeat_n(false, k)).collect()
+            }
+            _ => {
+                let mut p: Vec<bool> = (0..rng.range(2, 9)).map(|_| rng.chance(1, 2)).collect();
+                // at least one ready call per cycle, else no progress is possible
+                let i = rng.below(p.len());
+                p[i] = false;
+                p
+            }
+        }
+    };
+    EndScript {
+        rl: lim_seq(rng),
+        wl: lim_seq(rng),
+        pend: [pat(rng), pat(rng), pat(rng), pat(rng)],
+        delay: *rng.pick(&[0u64, 0, 1, 2, 3, 7]),
+        buffering: rng.chance(1, 2),
+    }
+}
+
+fn seeded_case(rng: &mut Rng, thorough: bool) -> Case {
+    let (bc, bs) = *rng.pick(&PAIRS);
+    let hostile = *rng.pick(&["client", "server", "both", "both"]);
+    let script = match hostile {
+        "client" => [seeded_script(rng), EndScript::benign()],
+        "server" => [EndScript::benign(), seeded_script(rng)],
+        _ => [seeded_script(rng), seeded_script(rng)],
+    };
+    // bound the cost: tiny limits with big payloads are covered by the
+    // enumerated family; here the total stays moderate
+    let max_total = if thorough { 160 * 1024 } else { 48 * 1024 };
+    let mut lists: [Vec<usize>; 2] = Default::default();
+    for l in lists.iter_mut() {
+        let n = rng.below(6);
+        let mut total = 0usize;
+        for _ in 0..n {
+            let len = match rng.below(10) {
+                0 => 0,
+                1 => 1,
+                2 => 16384,
+                3 => 16385,
+                4 => 65536,
+                5 => 16383,
+                _ => rng.size(20000),
+            };
+            if total + len > max_total {
+                continue;
+            }
+            total += len;
+            l.push(len);
+        }
+    }
+    Case {
+        family: "seeded".into(),
+        backend: [bc, bs],
+        version: if rng.chance(1, 3) { 12 } else { 13 },
+        script,
+        hostile: hostile.into(),
+        msgs: lists,
+        flush_each: rng.chance(1, 2),
+        read_sizes: (0..rng.range(1, 4))
+            .map(|_| *rng.pick(&[1usize, 2, 5, 100, 4096, 16384, 16385, 70000]))
+            .collect(),
+        closer: rng.below(2),
+        sched: rng.below(4) as u8,
+        sched_seed: rng.next_u64(),
+        pattern_seed: rng.next_u64(),
+    }
+}
+
+// ---------------------------------------------------------------------------
+// Evaluation and reporting
+// ---------------------------------------------------------------------------
+
+fn lim_str(v: &[usize]) -> String {
+    match v {
+        [] => "inf".into(),
+        [x] => if *x == 0 { "inf".into() } else { x.to_string() },
+        _ => "seq".into(),
+    }
+}
+
+fn pend_str(s: &EndScript) -> String {
+    // regular family: patterns equal [true, false x k] on read+write or on all kinds
+    let p = &s.pend[0];
+    let all = s.pend.iter().all(|q| q == p);
+    let rw = s.pend[1] == *p && s.pend[2].is_empty() && s.pend[3].is_empty();
+    if all || rw {
+        if p.is_empty() {
+            return "p0".into();
+        }
+        if p[0] && p[1..].iter().all(|b| !*b) {
+            return format!("p{}{}", p.len() - 1, if all { "all" } else { "rw" });
+        }
+    }
+    let kinds: String = (0..4)
+        .filter(|k| s.pend[*k].iter().any(|b| *b))
+        .map(|k| &KIND_NAMES[k][..1])
+        .collect();
+    format!("pseq[{kinds}]d{}", s.delay)
+}
+
+/// (layer, back-end, role, read limit, write limit, pending pattern, buffering?)
+fn eval_sig(case: &Case) -> String {
+    let s = case.hostile_script();
+    let (role, be) = match case.hostile.as_str() {
+        "client" => ("client", case.backend[0].name().to_string()),
+        "server" => ("server", case.backend[1].name().to_string()),
+        _ => ("both", format!("{}+{}", case.backend[0].name(), case.backend[1].name())),
+    };
+    let peer = match case.hostile.as_str() {
+        "client" => format!("/peer={}", case.backend[1].name()),
+        "server" => format!("/peer={}", case.backend[0].name()),
+        _ => String::new(),
+    };
+    format!(
+        "tls{}/{be}/{role}/r{}/w{}/{}/{}{peer}",
+        case.version,
+        lim_str(&s.rl),
+        lim_str(&s.wl),
+        pend_str(s),
+        if s.buffering { "buf" } else { "direct" }
+    )
+}
+
+/// Stable class of a violation: rule, diagnosed cause, TLS version, the
+/// back-end and role the failure is attributed to, the phase that side was
+/// in, and (when no cause was diagnosed) the class of the transport script.
+fn violation_sig(case: &Case, f: &Failure, phases: [Phase; 2]) -> String {
+    let who = format!("{}-{}", case.backend[f.side].name(), ["client", "server"][f.side]);
+    let cause = if f.cause.is_empty() { case.script_class() } else { f.cause.clone() };
+    format!("C15/tls/{}/{cause}/tls{}/{who}/{}", f.rule, case.version, phases[f.side].name())
+}
+
+fn execute(case: &Case, rep: &mut Report) {
+    let r = panics::catch(|| run_case(case));
+    match r {
+        Ok(out) => {
+            let trivial = case.script.iter().all(|s| s.is_benign());
+            rep.eval(if trivial { None } else { Some(eval_sig(case)) });
+            rep.max("steps", out.steps as i64);
+            for (i, s) in out.stats.iter().enumerate() {
+                rep.count("transport_calls", s.calls.iter().sum::<u64>() as i64);
+                rep.count("injected_pendings", s.injected.iter().sum::<u64>() as i64);
+                rep.count("partial_writes", s.partial_writes as i64);
+                rep.count("short_reads", s.short_reads as i64);
+                rep.count("flushes_delivering_staged_bytes", s.flushes_with_data as i64);
+                if s.closes > 0 {
+                    rep.count(&format!("transport_closed_by_{}", case.backend[i].name()), 1);
+                }
+            }
+            rep.count("ciphertext_bytes", (out.delivered[0] + out.delivered[1]) as i64);
+            if let [Some(a), Some(b)] = out.hs_steps {
+                rep.max("handshake_steps", a.max(b) as i64);
+            }
+            match &out.failure {
+                None => {
+                    let hostile_buf = case.script.iter().any(|s| s.buffering);
+                    let pend = case.script.iter().any(|s| s.has_pending());
+                    rep.floor("held: handshake+data+close over a buffering transport", hostile_buf);
+                    rep.floor("held: with injected Pending + deferred wake", pend && out.stats.iter().any(|s| s.injected.iter().sum::<u64>() > 0));
+                    rep.floor("held: with 1-byte partial writes", out.stats.iter().any(|s| s.partial_writes > 0));
+                    rep.floor("held: with fragmented reads", out.stats.iter().any(|s| s.short_reads > 0));
+                    rep.floor("held: native-tls client", case.backend[0] == Backend::Native);
+                    rep.floor("held: native-tls server", case.backend[1] == Backend::Native);
+                    rep.floor("held: rustls client", case.backend[0] == Backend::Rustls);
+                    rep.floor("held: rustls server", case.backend[1] == Backend::Rustls);
+                    rep.floor("held: TLS 1.2", case.version == 12);
+                    rep.floor("held: TLS 1.3", case.version == 13);
+                    rep.floor("held: 64 KiB message", case.msgs.iter().flatten().any(|m| *m >= 65536));
+                    rep.floor("held: 0-byte message", case.msgs.iter().flatten().any(|m| *m == 0));
+                    if rep.want_sample() && !trivial {
+                        rep.sample(json!({"case": case.to_json(), "steps": out.steps, "handshake_steps": out.hs_steps,
+                            "ciphertext_bytes": out.delivered}));
+                    }
+                }
+                Some(f) if f.rule == "harness" => {
+                    rep.inconclusive(&format!("harness: {}", f.detail));
+                }
+                Some(f) => {
+                    rep.violation(&violation_sig(case, f, out.phases), &f.detail, case.to_json());
+                }
+            }
+        }
+        Err(p) => {
+            rep.eval(None);
+            if p.message.starts_with(INPOLL_MARK) {
+                rep.violation(
+                    &format!("C15/tls/spin-inside-poll/tls{}/{}/hostile={}/{}", case.version, case.backends(), case.hostile, case.script_class()),
+                    &p.message,
+                    case.to_json(),
+                );
+                return;
+            }
+            match p.origin() {
+                panics::Origin::Repo(loc) => rep.violation(
+                    &format!("C15/tls/{}/tls{}/{}/hostile={}/{}", p.sig(), case.version, case.backends(), case.hostile, case.script_class()),
+                    &format!("panic in compio at {loc}: {}", p.message),
+                    case.to_json(),
+                ),
+                o => rep.inconclusive(&format!("harness panic {o:?}: {}", p.message)),
+            }
+        }
+    }
+}
+
+pub fn main(args: &Args) {
+    let mut rep = Report::from_args("C15", &args.str("leg", "tls"), args);
+    if let Err(e) = material() {
+        rep.inconclusive(&format!("cannot build TLS material: {e}"));
+        rep.finish();
+        return;
+    }
+    if let Some(path) = args.get("replay") {
+        let text = std::fs::read_to_string(path).expect("replay file");
+        let v: Value = vcommon::serde_json::from_str(&text).expect("replay json");
+        let case = Case::from_json(&v["program"]);
+        execute(&case, &mut rep);
+        rep.finish();
+        return;
+    }
+    let shard = args.shard();
+    let nshards = args.nshards();
+    let thorough = args.thorough();
+
+    // --- enumerated family, sharded by index
+    if !args.flag("no-enum") {
+        let cases = enumerated(thorough);
+        let stride = args.usize("enum-stride", 1).max(1);
+        let mut complete = true;
+        let mut ran = 0i64;
+        for (i, c) in cases.iter().enumerate() {
+            if (i / stride) as u64 % nshards != shard || i % stride != 0 {
+                continue;
+            }
+            if rep.out_of_time() {
+                complete = false;
+                break;
+            }
+            execute(c, &mut rep);
+            ran += 1;
+        }
+        rep.count("enumerated_cases_total", cases.len() as i64 / nshards.max(1) as i64);
+        rep.count("enumerated_cases_run", ran);
+        rep.set_exhaustive(complete && stride == 1);
+        rep.note(format!(
+            "enumerated family: limits {{1,2,3,5,inf}}^2 x buffering x Pending-then-k-ready (k=0, k=1..4 on read+write, k=1..4 on read+write+flush+close) x hostile role {{client,server,both}} x 4 back-end pairs x TLS {{1.3,1.2}} = {} cases over all shards, stride {stride}, complete={complete}",
+            cases.len()
+        ));
+    }
+    // --- seeded family
+    let iters = args.iters(150, 3000);
+    let base = Rng::new(args.seed()).fork(shard + 1);
+    for i in 0..iters {
+        if rep.out_of_time() {
+            break;
+        }
+        let mut rng = base.fork(i as u64);
+        let c = seeded_case(&mut rng, thorough);
+        execute(&c, &mut rep);
+        rep.count("seeded_cases_run", 1);
+    }
+    rep.finish();
 }
